@@ -43,7 +43,9 @@ claim('C20', 'verus',
       'contract-based deductive verification (Verus) of the real position.rs functions, extracted mechanically on every run',
       'Clauses decided: (1) converting a byte offset on a character boundary to (line, UTF-16 column) and back returns the same offset; (2) positions past the end of a line or of the document are clamped into the document. '
       'utf8_offset_to_utf16_position, utf16_position_to_utf8_offset and span_to_range carry Verus contracts against char-level spec functions (to_position_spec, to_offset_spec); round trip and clamping are lemmas over them, '
-      'for all texts (any line-ending style, astral characters), all boundary offsets and ALL (line, column) pairs, with proofs of no slice/index/overflow panic under the stated well-formedness of the line table.',
+      'for all texts (any line-ending style, astral characters), all boundary offsets and ALL (line, column) pairs, with proofs of no slice/index/overflow panic under the stated well-formedness of the line table. '
+      'Clause (3), symbol ranges (inside the document, selection inside range, children inside parents, no panic of the document-symbol scan), is NOT proved: the three functions of document_symbols.rs are cut verbatim and executed '
+      'by the replay runner on generated program-like texts (sampled); two genuine defects found this way were repaired by fix: commits.',
       'Trusted: Verus/Z3, vstd (encode_utf8 lemmas, char::len_utf8), assumed std contracts in evidence.trusted_base (str range indexing, chars(), encode_utf16().count(), binary_search, char::len_utf16), '
       'ASSUMED well-formedness of compute_line_starts (Peekable<Chars> is outside Verus; cross-checked by the replay runner on every generated text). Not decided: symbol ranges, server entry points.',
       'DESIGN.md §4 C20')
